@@ -1,3 +1,3 @@
 From Coq Require Import ExtrOcamlBasic.
-From JV Require Import Model.Tc.
-Extraction "tc_x.ml" Tc.new_env Tc.run Tc.put.
+From JV Require Import Model.Tc Model.TcLay.
+Extraction "tc_x.ml" Tc.new_env Tc.run Tc.put TcLay.new_lenv TcLay.lrun.
